@@ -195,11 +195,11 @@ type Obligation struct {
 	Cover  bool     // expected sat
 	Result *SolveResult
 	// replay support
-	Inputs []ReplayInput
+	Inputs   []ReplayInput
 	ClauseGo string
-	vc     *VC
-	st     *State
-	Relaxed bool // candidate-model search: quantified facts dropped (models are validated by replay only)
+	vc       *VC
+	st       *State
+	Relaxed  bool // candidate-model search: quantified facts dropped (models are validated by replay only)
 }
 
 type ReplayInput struct {
@@ -279,42 +279,42 @@ func (s *State) assume(f string) {
 // VC context for one function
 
 type VC struct {
-	p        *Prog
-	u        *Universe
-	fi       *FuncInfo
-	spec     *FuncSpec
-	info     *types.Info
-	pkg      *types.Package
-	ts       TSubst
-	decls    []string
-	declSeen map[string]bool
-	base     []string // facts about entry symbols (valid in every state)
-	heap0    map[string]Term
-	heapSort map[string]string
-	heapElemT map[string]types.Type
-	obls     []*Obligation
-	entry    *State
-	counters map[string]int
-	loopN    int
-	params   map[string]types.Object // name -> object
-	paramTerm map[string]Term        // entry values
-	results  []*types.Var
+	p           *Prog
+	u           *Universe
+	fi          *FuncInfo
+	spec        *FuncSpec
+	info        *types.Info
+	pkg         *types.Package
+	ts          TSubst
+	decls       []string
+	declSeen    map[string]bool
+	base        []string // facts about entry symbols (valid in every state)
+	heap0       map[string]Term
+	heapSort    map[string]string
+	heapElemT   map[string]types.Type
+	obls        []*Obligation
+	entry       *State
+	counters    map[string]int
+	loopN       int
+	params      map[string]types.Object // name -> object
+	paramTerm   map[string]Term         // entry values
+	results     []*types.Var
 	resultNames []string
-	exits    []*State
-	paths    int
-	notes    []string
-	inputs   []ReplayInput
-	closures map[string]*funcVal
-	litResults map[*ast.FuncLit][]*types.Var
-	usedLoops map[int]bool
-	usedSpecs map[string]bool
-	loopOrd  map[ast.Stmt]int
-	targets  []*target
-	sinks    []*retSink
-	dry      int
-	dryExits []*State
-	pure     int
-	quiet    int
+	exits       []*State
+	paths       int
+	notes       []string
+	inputs      []ReplayInput
+	closures    map[string]*funcVal
+	litResults  map[*ast.FuncLit][]*types.Var
+	usedLoops   map[int]bool
+	usedSpecs   map[string]bool
+	loopOrd     map[ast.Stmt]int
+	targets     []*target
+	sinks       []*retSink
+	dry         int
+	dryExits    []*State
+	pure        int
+	quiet       int
 	usedAnchors map[string]bool
 }
 
@@ -395,4 +395,23 @@ func (vc *VC) litKey(l *ast.FuncLit) string {
 		return ci.Key
 	}
 	return fmt.Sprintf("lit@%d", l.Pos())
+}
+
+// sortedPkgs returns the repository packages in a fixed order (shortest path first).
+func (p *Prog) sortedPkgs() []*packages.Package {
+	var paths []string
+	for k := range p.pkgs {
+		paths = append(paths, k)
+	}
+	sort.Slice(paths, func(i, j int) bool {
+		if len(paths[i]) != len(paths[j]) {
+			return len(paths[i]) < len(paths[j])
+		}
+		return paths[i] < paths[j]
+	})
+	out := make([]*packages.Package, len(paths))
+	for i, k := range paths {
+		out[i] = p.pkgs[k]
+	}
+	return out
 }
